@@ -85,6 +85,70 @@ def _strip_doc(body):
     return body
 
 
+def _always_returns(stmts):
+    """does every path through the statement list end in return/raise?"""
+    for st in stmts:
+        if isinstance(st, (ast.Return, ast.Raise)):
+            return True
+        if isinstance(st, ast.If) and st.orelse and _always_returns(st.body) and _always_returns(st.orelse):
+            return True
+    return False
+
+
+class _NoRestructure(Exception):
+    pass
+
+
+def _restructure(stmts, on_return):
+    """Rewrite a guard-clause body (returns only at statement level of if/else chains) into single-exit form:
+    `return e` becomes on_return(e) and the statements after a returning `if` move into its else branch."""
+    out = []
+    for i, st in enumerate(stmts):
+        if isinstance(st, ast.Return):
+            out.extend(on_return(st))
+            return out
+        if not _returns([st]):
+            out.append(st)
+            continue
+        if not isinstance(st, ast.If):
+            raise _NoRestructure()
+        rest = stmts[i + 1:]
+        body_ret = _always_returns(st.body)
+        else_ret = bool(st.orelse) and _always_returns(st.orelse)
+        if body_ret and else_ret:
+            st.body = _restructure(st.body, on_return)
+            st.orelse = _restructure(st.orelse, on_return)
+            out.append(st)
+            return out
+        if body_ret and not _returns(st.orelse):
+            st.body = _restructure(st.body, on_return)
+            st.orelse = _restructure(list(st.orelse) + rest, on_return)
+            if not st.orelse:
+                st.orelse = []
+            if not st.body:
+                st.body = [ast.Pass(lineno=getattr(st, "lineno", 1), col_offset=0)]
+            out.append(st)
+            return out
+        if else_ret and not _returns(st.body):
+            st.orelse = _restructure(st.orelse, on_return) or [ast.Pass(lineno=getattr(st, "lineno", 1), col_offset=0)]
+            st.body = _restructure(list(st.body) + rest, on_return) or [ast.Pass(lineno=getattr(st, "lineno", 1), col_offset=0)]
+            out.append(st)
+            return out
+        raise _NoRestructure()
+    return out
+
+
+class _ReturnToRaise(ast.NodeTransformer):
+    def visit_FunctionDef(self, node):
+        return node
+
+    def visit_Lambda(self, node):
+        return node
+
+    def visit_Return(self, node):
+        return ast.copy_location(ast.Raise(exc=node.value, cause=None), node)
+
+
 class Inliner(object):
     MAX_DEPTH = 3
 
@@ -92,6 +156,7 @@ class Inliner(object):
         self.idx = idx
         self.memo = {}
         self.counter = 0
+        self.aliases = []
         self.inlined_calls = {}  # helper FuncInfo -> count of call sites inlined
         self.kept_calls = {}  # helper FuncInfo -> count of call sites left alone
 
@@ -110,9 +175,9 @@ class Inliner(object):
                     break
                 g = g.parent
             if cand is None:
-                b = fi.module.bindings.get(f.id)
-                if b and b[0] == "func":
-                    cand = b[1]
+                r = idx.resolve(fi.module, f, fi)
+                if r and r[0] == "func":
+                    cand = r[1]
         elif isinstance(f, ast.Attribute) and isinstance(f.value, ast.Name):
             cls = idx.enclosing_class(fi)
             top = fi
@@ -121,32 +186,24 @@ class Inliner(object):
             selfname = top.node_orig.args.args[0].arg if (top.cls is not None and top.kind != "staticmethod" and top.node_orig.args.args) else None
             if cls is not None and f.value.id == selfname:
                 m = idx.find_method(cls, f.attr)
-                if m is not None and m.module is fi.module:
+                if m is not None:
                     # dynamic dispatch: only when nothing in the package overrides it
                     overridden = any(f.attr in c.methods and c.methods[f.attr] is not m for c in idx.subclasses(m.cls))
                     if not overridden:
                         cand = m
                         recv = f.value
             else:
-                b = fi.module.bindings.get(f.value.id)
-                if b and b[0] == "class" and f.attr in b[1].methods and b[1].methods[f.attr].kind == "staticmethod":
-                    cand = b[1].methods[f.attr]
-        if cand is None or cand.module is not fi.module:
+                r = idx.resolve(fi.module, f, fi)
+                if r and r[0] == "func":
+                    cand = r[1]
+                elif r and r[0] == "method" and r[2].kind == "staticmethod":
+                    cand = r[2]
+        if cand is None:
             return None, None
         if _is_protocol(cand.name) or cand.kind == "property":
             return None, None
-        private = cand.name.startswith("_") or cand.parent is not None
-        if not private:
-            # a public module-level function is a helper only if nothing outside its module uses it
-            used_elsewhere = False
-            for m in idx.modules.values():
-                if m is cand.module:
-                    continue
-                for b in m.bindings.values():
-                    if b[0] == "sym" and b[1] == cand.module.name and b[2] == cand.name:
-                        used_elsewhere = True
-            if used_elsewhere or cand.cls is not None:
-                return None, None
+        if cand.module is not fi.module and cand.local_bindings:
+            return None, None
         a = cand.node_orig.args
         if a.vararg or a.kwarg or a.kwonlyargs or a.posonlyargs:
             return None, None
@@ -186,7 +243,7 @@ class Inliner(object):
         return mapping
 
     # ------------------------------------------------------------------ body of a helper, specialised to one call
-    def specialise(self, cand, mapping, lineno, stack):
+    def specialise(self, fi, cand, mapping, lineno, stack):
         self.counter += 1
         tag = "__i%d" % self.counter
         body = copy.deepcopy(_strip_doc(self.body_of(cand, stack)))
@@ -202,12 +259,49 @@ class Inliner(object):
             else:
                 m2[p] = v
         rename = {n: n + tag for n in stored if n not in mapping}
+        if cand.module is not fi.module:
+            rename.update(self.harmonise(fi, cand, body, stored, set(mapping)))
         for p in mapping:
             if p in stored:
                 rename[p] = p + tag
         sub = _Subst({k: v for k, v in m2.items() if k not in rename}, rename)
         new_body = [sub.visit(s) for s in body]
         return pre + new_body
+
+    def harmonise(self, fi, cand, body, stored, params):
+        """A helper of another module is expanded in the caller's module: every global name its body reads must denote
+        the same thing there.  Names the caller's module does not bind are bound as if imported; names it binds
+        differently are given a fresh alias."""
+        idx = self.idx
+        cm, hm = fi.module, cand.module
+        out = {}
+        free = set()
+        for st in body:
+            for n in ast.walk(st):
+                if isinstance(n, ast.Name) and isinstance(n.ctx, ast.Load) and n.id not in stored and n.id not in params:
+                    free.add(n.id)
+        for g in sorted(free):
+            hb = hm.bindings.get(g)
+            if hb is None:
+                continue  # builtin or unknown in both
+            as_import = hb if hb[0] in ("mod", "sym") else ("sym", hm.name, g)
+            cb = cm.bindings.get(g)
+            shadow = False
+            f = fi
+            while f is not None:
+                if g in f.local_bindings or g in f.nested:
+                    shadow = True
+                f = f.parent
+            if cb is None and not shadow:
+                cm.bindings[g] = as_import
+                continue
+            if not shadow and idx._chase(cb) == idx._chase(hb):
+                continue
+            alias = "%s__m%d" % (g, len(self.aliases))
+            self.aliases.append(alias)
+            cm.bindings[alias] = as_import
+            out[g] = alias
+        return out
 
     def body_of(self, cand, stack):
         """the helper's own body with its helpers already expanded"""
@@ -221,7 +315,7 @@ class Inliner(object):
             return self.memo[fi]
         stack = tuple(stack) + (fi,)
         node = copy.deepcopy(fi.node_orig)
-        node.body = self.block(fi, node.body, stack)
+        node.body = self.block(fi, node.body, stack, top=True)
         ast.fix_missing_locations(node)
         if len(stack) == 1:
             self.memo[fi] = node
@@ -231,13 +325,13 @@ class Inliner(object):
         d = self.inlined_calls if done else self.kept_calls
         d[cand] = d.get(cand, 0) + 1
 
-    def block(self, fi, stmts, stack):
+    def block(self, fi, stmts, stack, top=False):
         out = []
-        for s in stmts:
-            out.extend(self.stmt(fi, s, stack))
+        for i, s in enumerate(stmts):
+            out.extend(self.stmt(fi, s, stack, is_last=top and i == len(stmts) - 1))
         return out
 
-    def stmt(self, fi, s, stack):
+    def stmt(self, fi, s, stack, is_last=False):
         if isinstance(s, (ast.FunctionDef, ast.AsyncFunctionDef, ast.ClassDef)):
             return [s]
         # statement-level splices
@@ -249,6 +343,8 @@ class Inliner(object):
             call, form = s.value, "assign"
         elif isinstance(s, ast.Return) and isinstance(s.value, ast.Call):
             call, form = s.value, "return"
+        elif isinstance(s, ast.Raise) and isinstance(s.exc, ast.Call) and s.cause is None:
+            call, form = s.exc, "raise"
         if call is not None:
             cand, recv = self.callee(fi, call)
             if cand is not None and cand not in stack:
@@ -258,33 +354,73 @@ class Inliner(object):
                 last = body0[-1] if body0 else None
                 tail = isinstance(last, ast.Return) and last.value is not None and len(rets) == 1
                 single_expr = len(body0) == 1 and tail
-                ok = False
+                early = [r for r in rets if r is not last]
+                mode = None
                 if mapping is not None and not single_expr:
-                    if form == "expr":
-                        ok = all(r.value is None for r in rets if r is not last) and (not rets or rets == [last] or all(r.value is None for r in rets))
-                        ok = ok and all(r is last for r in rets if r.value is not None)
-                        ok = ok and not any(r is not last for r in rets)  # early returns cannot be spliced into straight-line code
+                    if form == "return":
+                        mode = "verbatim"
+                    elif form == "raise":
+                        if rets and all(r.value is not None for r in rets) and _always_returns(body0):
+                            mode = "raise"
+                    elif form == "expr":
+                        if not early:
+                            mode = "straight"
+                        elif is_last and all(r.value is None for r in early):
+                            mode = "straight"  # the caller ends here: a bare return in the helper ends the caller too
+                        else:
+                            mode = "restructure"
                     elif form == "assign":
-                        ok = tail
-                    elif form == "return":
-                        ok = True
-                if not ok and not single_expr:
+                        if tail:
+                            mode = "straight"
+                        elif rets and all(r.value is not None for r in rets) and _always_returns(body0):
+                            mode = "restructure"
+                if mode is None and not single_expr:
                     self.note(cand, False)
-                if ok:
+                if mode is not None:
+                    ln = getattr(s, "lineno", 1)
                     args_inl = {k: self.expr(fi, v, stack) for k, v in mapping.items()}
-                    body = self.specialise(cand, args_inl, getattr(s, "lineno", 1), stack)
-                    self.note(cand, True)
-                    if form == "expr":
-                        if body and isinstance(body[-1], ast.Return):
+                    body = self.specialise(fi, cand, args_inl, ln, stack)
+                    done = None
+                    if mode == "verbatim":
+                        done = body
+                    elif mode == "raise":
+                        done = [_ReturnToRaise().visit(b) for b in body]
+                    elif mode == "straight":
+                        if form == "expr":
+                            if body and isinstance(body[-1], ast.Return):
+                                lastv = body.pop()
+                                if lastv.value is not None:
+                                    body.append(ast.Expr(value=lastv.value, lineno=getattr(lastv, "lineno", 1), col_offset=0))
+                            done = body or [ast.Pass(lineno=ln, col_offset=0)]
+                        else:
                             lastv = body.pop()
-                            if lastv.value is not None:
-                                body.append(ast.Expr(value=lastv.value, lineno=getattr(lastv, "lineno", 1), col_offset=0))
-                        return body or [ast.Pass(lineno=getattr(s, "lineno", 1), col_offset=0)]
-                    if form == "assign":
-                        lastv = body.pop()
-                        body.append(ast.Assign(targets=s.targets, value=lastv.value, lineno=getattr(s, "lineno", 1), col_offset=0))
-                        return body
-                    return body
+                            body.append(ast.Assign(targets=s.targets, value=lastv.value, lineno=ln, col_offset=0))
+                            done = body
+                    else:
+                        if form == "expr":
+                            def on_return(r):
+                                return [ast.Expr(value=r.value, lineno=getattr(r, "lineno", ln), col_offset=0)] if r.value is not None else []
+                        else:
+                            def on_return(r):
+                                return [ast.Assign(targets=copy.deepcopy(s.targets), value=r.value, lineno=getattr(r, "lineno", ln), col_offset=0)]
+                        try:
+                            pre_n = len([b for b in body if getattr(b, "_pre", False)])
+                            done = _restructure(body, on_return) or [ast.Pass(lineno=ln, col_offset=0)]
+                        except _NoRestructure:
+                            done = None
+                    if done is not None:
+                        self.note(cand, True)
+                        return done
+                    self.note(cand, False)
+        # a multi-statement helper called inside a simple statement: its body is hoisted in front, the call becomes a temporary
+        pre = []
+        if isinstance(s, (ast.Expr, ast.Assign, ast.AugAssign, ast.Return, ast.Raise, ast.If, ast.Assert, ast.For)):
+            for field in ("value", "exc", "test") if not isinstance(s, ast.For) else ("iter",):
+                v = getattr(s, field, None)
+                if isinstance(v, ast.expr):
+                    setattr(s, field, self.hoist(fi, v, stack, pre))
+        if pre:
+            return pre + self.stmt(fi, s, stack)
         # recurse into compound statements, and expression-level inlining elsewhere
         for field, value in list(ast.iter_fields(s)):
             if isinstance(value, list) and value and isinstance(value[0], ast.stmt):
@@ -300,6 +436,54 @@ class Inliner(object):
                 for w in value:
                     w.context_expr = self.expr(fi, w.context_expr, stack)
         return [s]
+
+    def hoist(self, fi, e, stack, pre):
+        inl = self
+
+        def walk(n):
+            if isinstance(n, (ast.Lambda, ast.GeneratorExp, ast.ListComp, ast.SetComp, ast.DictComp)):
+                return n
+            if isinstance(n, ast.IfExp):
+                n.test = walk(n.test)
+                return n
+            if isinstance(n, ast.BoolOp):
+                n.values[0] = walk(n.values[0])
+                return n
+            for field, value in list(ast.iter_fields(n)):
+                if isinstance(value, ast.expr):
+                    setattr(n, field, walk(value))
+                elif isinstance(value, list):
+                    setattr(n, field, [walk(x) if isinstance(x, ast.expr) else (setattr(x, "value", walk(x.value)) or x) if isinstance(x, ast.keyword) else x for x in value])
+            if isinstance(n, ast.Call):
+                cand, recv = inl.callee(fi, n)
+                if cand is None or cand in stack:
+                    return n
+                body0 = _strip_doc(cand.node_orig.body)
+                rets = _returns(body0)
+                last = body0[-1] if body0 else None
+                if len(body0) > 1 and rets and all(r.value is not None for r in rets) and _always_returns(body0):
+                    mapping = inl.bind(cand, recv, n)
+                    if mapping is None:
+                        return n
+                    ln = getattr(n, "lineno", 1)
+                    body = inl.specialise(fi, cand, mapping, ln, stack)
+                    inl.counter += 1
+                    tmp = "__r%d" % inl.counter
+
+                    def on_return(r):
+                        return [ast.Assign(targets=[ast.Name(id=tmp, ctx=ast.Store())], value=r.value, lineno=getattr(r, "lineno", ln), col_offset=0)]
+
+                    try:
+                        body = _restructure(body, on_return)
+                    except _NoRestructure:
+                        inl.note(cand, False)
+                        return n
+                    pre.extend(body)
+                    inl.note(cand, True)
+                    return ast.copy_location(ast.Name(id=tmp, ctx=ast.Load()), n)
+            return n
+
+        return walk(e)
 
     def expr(self, fi, e, stack):
         inl = self
@@ -319,7 +503,7 @@ class Inliner(object):
                 if len(body0) == 1 and isinstance(body0[0], ast.Return) and body0[0].value is not None:
                     mapping = inl.bind(cand, recv, node)
                     if mapping is not None:
-                        body = inl.specialise(cand, mapping, getattr(node, "lineno", 1), stack)
+                        body = inl.specialise(fi, cand, mapping, getattr(node, "lineno", 1), stack)
                         if len(body) == 1 and isinstance(body[0], ast.Return):
                             inl.note(cand, True)
                             return ast.copy_location(body[0].value, node)
@@ -327,6 +511,101 @@ class Inliner(object):
                 return node
 
         return T().visit(e)
+
+
+def _namedtuple_fields(idx, mod, func_expr, fi):
+    """field names when `func_expr` denotes a module-level `X = namedtuple("X", fields)`, else None"""
+    r = idx.resolve(mod, func_expr, fi)
+    if not r or r[0] != "const":
+        return None
+    m, name = r[1], r[2]
+    v = m.consts.get(name)
+    if not (isinstance(v, ast.Call) and v.args and len(v.args) >= 2):
+        return None
+    q = idx.qualname(m, v.func)
+    if q not in ("collections.namedtuple", "namedtuple"):
+        return None
+    try:
+        f = idx.const(m, v.args[1])
+    except KeyError:
+        return None
+    if isinstance(f, str):
+        f = f.replace(",", " ").split()
+    if isinstance(f, (list, tuple)) and all(isinstance(x, str) for x in f):
+        return list(f)
+    return None
+
+
+def scalarise_namedtuples(idx, fi, node):
+    """A local `w = NT(a, b, c)` whose only uses are `w.field` reads is replaced by one local per field; an NT(...)
+    that is unpacked at once becomes a plain tuple.  (records introduced by a refactoring must not hide the values)"""
+    mod = fi.module
+    assigns = {}
+    uses = {}
+    other = set()
+    stores = {}
+    for n in ast.walk(node):
+        if isinstance(n, ast.Name) and isinstance(n.ctx, ast.Store):
+            stores[n.id] = stores.get(n.id, 0) + 1
+    parents = {}
+    for n in ast.walk(node):
+        for c in ast.iter_child_nodes(n):
+            parents[c] = n
+    for n in ast.walk(node):
+        if isinstance(n, ast.Assign) and len(n.targets) == 1 and isinstance(n.value, ast.Call):
+            fields = _namedtuple_fields(idx, mod, n.value.func, fi)
+            if fields is None:
+                continue
+            c = n.value
+            if any(isinstance(a, ast.Starred) for a in c.args) or any(k.arg is None for k in c.keywords):
+                continue
+            vals = {}
+            for f, a in zip(fields, c.args):
+                vals[f] = a
+            for k in c.keywords:
+                vals[k.arg] = k.value
+            if set(vals) != set(fields) or len(c.args) > len(fields):
+                continue
+            t = n.targets[0]
+            if isinstance(t, ast.Name):
+                assigns[t.id] = (n, fields, vals)
+            elif isinstance(t, (ast.Tuple, ast.List)) and len(t.elts) == len(fields):
+                n.value = ast.copy_location(ast.Tuple(elts=[vals[f] for f in fields], ctx=ast.Load()), c)
+    if not assigns:
+        return node
+    for n in ast.walk(node):
+        if isinstance(n, ast.Name) and n.id in assigns and isinstance(n.ctx, ast.Load):
+            par = parents.get(n)
+            if isinstance(par, ast.Attribute) and par.value is n and isinstance(par.ctx, ast.Load) and par.attr in assigns[n.id][1]:
+                uses.setdefault(n.id, []).append(par)
+            else:
+                other.add(n.id)
+    todo = {w for w in assigns if stores.get(w) == 1 and w not in other}
+    if not todo:
+        return node
+
+    class T(ast.NodeTransformer):
+        def visit_Attribute(self, n):
+            if isinstance(n.value, ast.Name) and n.value.id in todo and isinstance(n.ctx, ast.Load):
+                return ast.copy_location(ast.Name(id="%s__%s" % (n.value.id, n.attr), ctx=ast.Load()), n)
+            self.generic_visit(n)
+            return n
+
+        def visit_Assign(self, n):
+            if len(n.targets) == 1 and isinstance(n.targets[0], ast.Name) and n.targets[0].id in todo and assigns[n.targets[0].id][0] is n:
+                w = n.targets[0].id
+                _, fields, vals = assigns[w]
+                order = [f for f, _ in zip(fields, n.value.args)] + [k.arg for k in n.value.keywords]
+                out = []
+                for f in order:
+                    out.append(ast.copy_location(ast.Assign(targets=[ast.Name(id="%s__%s" % (w, f), ctx=ast.Store())], value=self.visit(vals[f]), lineno=n.lineno, col_offset=0), n))
+                return out
+            self.generic_visit(n)
+            return n
+
+    node = T().visit(node)
+    ast.fix_missing_locations(node)
+    return node
 
 
 def normalise(idx):
@@ -342,6 +621,10 @@ def normalise(idx):
         except RecursionError:
             new[fi] = fi.node_orig
     for fi, n in new.items():
+        try:
+            n = scalarise_namedtuples(idx, fi, n)
+        except RecursionError:
+            pass
         fi.node = n
     for cand, cnt in inl.inlined_calls.items():
         if cnt and not inl.kept_calls.get(cand):
